@@ -72,7 +72,7 @@ fn book_gen(m: &HashMap<String, String>) {
         let l = levels[rng.gen_range(0..levels.len())];
         let wide = profile == "wide";
         let tick = if wide {
-            [1u32, 7, 1000, 65536, 1 << 20][rng.gen_range(0..5)]
+            [1u32, 2, 7, 10, 1000, 65536, 1 << 20][rng.gen_range(0..7)]
         } else {
             ticks[rng.gen_range(0..ticks.len())]
         };
@@ -89,7 +89,8 @@ fn book_gen(m: &HashMap<String, String>) {
         } else if wide {
             // a window of grid prices just below 2^32 - 1 (strictly inside (0, MAX))
             let top = (u32::MAX - 1) / tick;
-            if rng.gen::<f64>() < 0.5 { top - np } else { 1 }
+            // (the window ends AT the topmost grid price below 2^32 - 1)
+            if rng.gen::<f64>() < 0.5 { top - np + 1 } else { 1 }
         } else {
             rng.gen_range(1..20)
         };
@@ -319,7 +320,8 @@ fn env_gen(m: &HashMap<String, String>) {
         let step: u64 = if profile == "overfull" { [1u64, 2, 5][rng.gen_range(0..3)] } else { [1u64, 3, 8, 16, 100][rng.gen_range(0..5)] };
         let trading = if profile == "toggle" { rng.gen::<f64>() < 0.6 } else { rng.gen::<f64>() < 0.9 };
         let t0: u64 = rng.gen_range(0..50);
-        let env_seed: u64 = rng.gen_range(0..1_000_000);
+        // (one environment in ten is seeded with a boundary value)
+        let env_seed: u64 = { let s = rng.gen_range(0..1_000_000); if rng.gen::<f64>() < 0.1 { [0u64, 1, u64::MAX, 1 << 32][(s % 4) as usize] } else { s } };
         let h = EnvHeader { id: format!("{}{}-{}-{}", kind, profile, seed, hi), profile: profile.clone(), kind: kind.clone(),
             seed: env_seed, t0, ticks: tks.clone(), step, trading, levels: l };
         // a wide window now and then, so that all ten published levels (and the level scan's far end) hold different amounts
@@ -329,6 +331,9 @@ fn env_gen(m: &HashMap<String, String>) {
         let base = rng.gen_range(1..20);
         let vols = if profile == "unusual" { vec![0, 0, 1, 2, 3, 5] }
                    else if (profile == "py" || profile == "npy") && rng.gen::<f64>() < 0.3 { vec![0, 0, 1, 2, 5] }
+                   // (now and then - not in the ten-level streams the Python driver replays - volumes of about 2^30 .. 2^31: a few steps trade more than 2^32 in total while every
+                   // order, every side total and every single step's traded volume stay below 2^32)
+                   else if profile == "plain" && l != 10 && rng.gen::<f64>() < 0.1 { vec![1 << 30, (1u32 << 31) - 1, 1 << 29, 3 << 29] }
                    else if rng.gen::<f64>() < 0.5 { vec![1, 2, 3] } else { vec![1, 2, 5, 10] };
         let mut g = EGen { rng, profile: profile.clone(), ticks: tks, base, n_prices: np, vols, step, trading };
         if profile == "long" {
@@ -538,6 +543,11 @@ fn agent_audit(m: &HashMap<String, String>) {
         let mut rng = Xoroshiro128StarStar::seed_from_u64(seed.wrapping_mul(0x9E3779B97F4A7C15).wrapping_add(i as u64) ^ 0xA0D17);
         let cfg = gen_audit_cfg(&mut rng);
         let o = run_audit(&cfg);
+        if let Err(e) = &o.verdict {
+            if e.starts_with("harness_or_setup") {
+                eprintln!("audit-{}-{}: {}", seed, i, LAST_PANIC.lock().map(|g| g.clone()).unwrap_or_default());
+            }
+        }
         println!("AA audit-{}-{} {} orders={} limit={} market={} cancels={} {}", seed, i,
                  match &o.verdict { Ok(()) => "ok".to_string(), Err(e) => format!("BAD:{}", e) }, o.orders, o.limit, o.market, o.cancels, cfg.line());
     }
